@@ -78,6 +78,9 @@ class RTree(Core):
             if t[0] == "chars":
                 if self.tok.want_pieces:
                     for pc in t[2]:
+                        if isinstance(pc, tuple):
+                            self.dispatch(("char", pc[1]))   # a token html5lib types as Characters whatever it contains
+                            continue
                         if pc == "\x00":
                             self.dispatch(("nul", pc))
                         elif all(c in WS for c in pc):
